@@ -18,6 +18,11 @@ def configs(tier):
             shapes.append(("cases", [], 1, [[v] for v in range(1, n + 1)]))
         if n % 3 == 0 and n <= 27:
             shapes.append(("cases", [n // 3], 1, [[3], [1], [2]]))
+        if n <= 12:
+            # a grid with one case over two further arguments (the case may be spelled as a bare dict)
+            shapes.append(("combos", [n], 2, [[1, 2]]))
+        if n % 2 == 0 and n <= 12:
+            shapes.append(("combos", [n // 2], 2, [[1, 2], [2, 1]]))
         for kind, grid, nca, cases in shapes:
             opts = [("none", 1)] + [("size", s) for s in range(1, n + 2)] + [("count", k) for k in range(1, n + 3)]
             if tier == "quick" and (kind != "combos" or len(grid) > 1):
